@@ -57,6 +57,7 @@ any attributes of have all been unpacked.
 
 import io
 import pickle
+import types
 import dill
 
 
@@ -103,6 +104,7 @@ class _NonrecursivePickler(dill.Pickler):
         dill.Pickler.__init__(self, file, **kwargs)
         self.lazywrites = []
         self.realwrite = file.write
+        self._recursing = 0
 
         # TODO: this creates a reference loop and prevents gc
         self.write = self.lazywrite
@@ -126,10 +128,36 @@ class _NonrecursivePickler(dill.Pickler):
             raise NotImplementedError(  # pragma: no cover
                 "Edgegraph _NonrecursivePickler does not support save_persistent_id option!"
             )
-        self.lazywrites.append(_LazySave(obj))
+        if self._recursing:
+            # inside a class / function saved the recursive way (see
+            # _save_now): keep dill's own order of events
+            dill.Pickler.save(self, obj)
+        else:
+            self.lazywrites.append(_LazySave(obj))
 
     #: Alias to the true :py:meth:`dill.Pickler.save`.
     realsave = dill.Pickler.save
+
+    def _save_now(self, obj):
+        """
+        Really save an object whose turn has come (the queue is empty here).
+
+        Classes and functions pickled by value are saved the ordinary,
+        recursive way, together with everything below them: dill breaks the
+        reference cycles they contain (class -> method -> ``__class__`` cell
+        -> class; function -> closure cell -> function) with bookkeeping that
+        follows the recursion, so deferring their parts would save the class
+        again and again without end.  Their depth is that of a class
+        definition, not of the graph.
+        """
+        if isinstance(obj, (type, types.FunctionType)):
+            self._recursing += 1
+            try:
+                self.realsave(obj)
+            finally:
+                self._recursing -= 1
+        else:
+            self.realsave(obj)
 
     def lazymemoize(self, obj):
         """Store an object in the memo."""
@@ -145,14 +173,14 @@ class _NonrecursivePickler(dill.Pickler):
         """Write a pickled representation of obj to the open file."""
         if self.proto >= 2:
             self.write(pickle.PROTO + chr(self.proto).encode("ascii"))
-        self.realsave(obj)
+        self._save_now(obj)
         while self.lazywrites:
             lws = self.lazywrites
             self.lazywrites = []
             while lws:
                 lw = lws.pop(0)
                 if isinstance(lw, _LazySave):
-                    self.realsave(lw.obj)
+                    self._save_now(lw.obj)
                     if self.lazywrites:
                         self.lazywrites.extend(lws)
                         break
